@@ -547,3 +547,137 @@ def all_specs():
     S.append(KSpec('L-sop2', 'sop2', 'q', 'Fq::sum_of_products::<2> (Fq2 multiplier), all a_i,b_i < q: out*R = sum a_i*b_i (mod q), every carry class of the lazy reduction', 4, deltas=(0, 1, 2, 3)))
     S.append(KSpec('L-sop4', 'sop4', 'q', 'Fq::sum_of_products::<4> (Fq4 multiplier), all a_i,b_i < q: out*R = sum a_i*b_i (mod q)', 8, deltas=(0, 1, 2, 3, 4)))
     return S
+
+
+def divrem_obligation(module, consts, mname, m, budget_ms=20000, seed=0):
+    """L-divrem: one iteration of the long-division loop of U512::divrem from an ARBITRARY remainder r < m:
+    r' = 2r + bit_(n-1)(x) - c*m with c in {0,1}, r' < m, counter decremented by one, loop left exactly at 0.
+    By Horner's rule (r_n = (x div 2^n) mod m is then inductive) the returned remainder is x mod m."""
+    import skeleton
+    res = Result('L-divrem-' + mname, 'U512::divrem loop step (modulus %s): r < m  =>  r\' = 2r + bit - c*m, c in {0,1}, r\' < m; counter n -> n-1; exit exactly at 0  [=> remainder = x mod m by Horner]' % mname, [])
+    t0 = time.time()
+    try:
+        fname = module.find('4u5124U5126divrem17h')
+        func = module.func(fname)
+        heads = skeleton.loop_headers(func)
+        if len(heads) != 1:
+            raise Unsupported('expected exactly one loop in divrem, found %d' % len(heads))
+        h = next(iter(heads))
+        phis = skeleton.header_phis(func, h)
+        succ = skeleton.cfg(func)
+        back = [b for b in func.blocks if h in succ.get(b, []) and func.order.index(b) > func.order.index(h)]
+        if len(back) != 1:
+            raise Unsupported('expected one back edge')
+        back = back[0]
+        exits = set(x for x in succ[back] if x != h)
+        pre = [pb for pb in phis[0][2] if pb != back]
+        if len(pre) != 1:
+            raise Unsupported('expected one preheader')
+        pre = pre[0]
+        counter = [p_ for p_ in phis if p_[1] == 'i64' and not re.match(r'^-?\d+$', p_[2][pre])]
+        rl = [p_ for p_ in phis if p_[1] == 'i64' and p_[2][pre] == '0']
+        other = [p_ for p_ in phis if p_ not in counter and p_ not in rl]
+        if len(counter) != 1 or len(rl) != 4:
+            raise Unsupported('header phis: expected one counter and four remainder limbs, found %d / %d' % (len(counter), len(rl)))
+        nq = 0
+        nseg = 0
+        # the pre-header environment (pointers, modulus limbs) from one run of the function entry
+        ctx0 = Ctx()
+        st0 = State()
+        k = Kernel(module, consts)
+        out = Ptr(st0.alloc('out'), 0)
+        px, x0 = k.operands(ctx0, st0, 'x', n=8)
+        pm, _ = k.operands(ctx0, st0, 'm', concrete=limbs(m))
+        ex0 = Exec(module, ctx0, consts, max_paths=64, loop_bound=3)
+        ex0.never_prune = True
+        ent = ex0.run(fname, [out, px, pm], st0, stop_blocks=heads)
+        arr = [(s_, r_) for s_, r_ in ent if isinstance(r_, tuple) and r_ and r_[0] == 'stop']
+        if not arr:
+            raise Unsupported('loop header not reached from the entry')
+        # entry obligations: remainder limbs start at 0 on every entry edge (from the phi table)
+        for st_, (_, hb, env_, prev_) in arr:
+            for p_ in rl:
+                if p_[2][prev_] != '0':
+                    raise Unsupported('remainder does not start at zero')
+        st_e, (_, _, env_e, prev_e) = arr[0]
+        bad = []
+        for n in range(512, 0, -1):
+            ctx = Ctx()
+            st = State()
+            # rebuild memory with fresh symbolic x and quotient storage
+            k = Kernel(module, consts)
+            xs = [ctx.var('x%d' % i, 0, W - 1) for i in range(8)]
+            for obj, cells in st_e.mem.items():
+                st.mem[obj] = {}
+                for off, (v, nb) in cells.items():
+                    st.mem[obj][off] = (v if isinstance(v, int) else ctx.fresh('hm', 0, (1 << (8 * nb)) - 1), nb)
+            for i in range(8):
+                st.mem[px.obj][8 * i] = (xs[i], 8)
+            st.nobj = st_e.nobj
+            env = {}
+            for kk, vv in env_e.items():
+                env[kk] = vv if isinstance(vv, (int, bool, Ptr)) else None
+            env = {kk: vv for kk, vv in env.items() if vv is not None}
+            r = [ctx.var('r%d' % i, 0, W - 1) for i in range(4)]
+            env[counter[0][0]] = n
+            for p_, v in zip(rl, r):
+                env[p_[0]] = v
+            for p_ in other:
+                env[p_[0]] = ctx.var('f_' + re.sub(r'\W', '_', p_[0]), 0, 1) if p_[1] == 'i64' else None
+            ex = Exec(module, ctx, consts, max_paths=256, loop_bound=3)
+            ex.never_prune = True
+            ex.havoc_bitops = True
+            outs = ex.run(fname, None, st, start_block=h, env=env, stop_blocks=set(heads) | exits, skip_phis=True)
+            R = z(value(ctx, r))
+            hyps = [R < m]
+            limb, sh = (n - 1) // 64, (n - 1) % 64
+            bit = ctx.mod(ctx.div(xs[limb], 1 << sh) if sh else xs[limb], 2)
+            nseg += 1
+            for st2, ret in outs:
+                if not (isinstance(ret, tuple) and ret and ret[0] == 'stop'):
+                    bad.append((n, 'loop body returns or traps'))
+                    continue
+                _, blk, env2, prev2 = ret
+                # values the header phis would take from the back edge
+                try:
+                    rn = [ex.val(p_[2][back], 'i64', env2) for p_ in rl]
+                    cn = ex.val(counter[0][2][back], 'i64', env2)
+                except Unsupported as e:
+                    bad.append((n, str(e)))
+                    continue
+                if cn != n - 1 or (blk in exits) != (n - 1 == 0):
+                    bad.append((n, 'counter %s after step, stopped at %s' % (cn, blk)))
+                    continue
+                Rn = z(value(ctx, rn))
+                goal = z3.And(z3.Or(Rn == 2 * R + z(bit), Rn == 2 * R + z(bit) - m), Rn < m, Rn >= 0)
+                s_ = z3.Solver()
+                s_.set('timeout', budget_ms)
+                s_.add(*ctx.axioms)
+                s_.add(*hyps)
+                s_.add(*st2.pc)
+                s_.add(z3.Not(goal))
+                nq += 1
+                rr_ = s_.check()
+                if rr_ != z3.unsat:
+                    w = None
+                    if rr_ == z3.sat:
+                        md = s_.model()
+                        w = dict(n=n, r='%x' % sum(md.eval(v, model_completion=True).as_long() << (64 * i) for i, v in enumerate(r)),
+                                 x='%x' % sum(md.eval(v, model_completion=True).as_long() << (64 * i) for i, v in enumerate(xs)))
+                    bad.append((n, str(rr_), w))
+        res.queries = nq
+        res.functions = [fname]
+        res.vacuity = '%d loop steps (n = 512..1), %d queries; entry: remainder starts at 0 on every entry edge' % (nseg, nq)
+        if bad:
+            refuted = [b for b in bad if len(b) > 2 and b[1] == 'sat']
+            res.status = 'sat' if refuted else 'inconclusive'
+            res.detail = '%d step obligations not discharged, e.g. %s' % (len(bad), bad[0])
+            res.model = refuted[0][2] if refuted else None
+        else:
+            res.status = 'proved'
+            res.detail = 'all %d step obligations discharged for every bit position' % nq
+    except Unsupported as e:
+        res.status = 'inconclusive'
+        res.detail = 'IR outside the supported subset / shape: %s' % e
+    res.seconds = time.time() - t0
+    return res
